@@ -95,6 +95,12 @@ class D{k}:
     {fname}: int = field(default=0{", metadata=" + mds if mds else ""})
     dep: int = 0
 dependent_required({{{fname!r}: ["dep"]}}, owner=D{k})
+{deco}@dataclass
+class G{k}:
+    {fname}: int = field(default=0{", metadata=" + mds if mds else ""})
+    dep: int = 0
+    free: int = 0
+dependent_required([{fname!r}, "dep"], owner=G{k})   # the documented shortcut for a bidirectional dependency
 CT{k} = {ct}
 @dataclass
 class H{k}:
@@ -254,6 +260,23 @@ def check_config(mod, k, cfg, st: infra.Stats):
                 dr = fn(D, **kw).get("dependentRequired")
                 if dr != {ext: [dep_ext]}:
                     viol(sname + ".dependentRequired(D)", f"{dr} != {{{ext!r}: [{dep_ext!r}]}}")
+            # the group form: each field of the group requires the others
+            G = getattr(mod, f"G{k}")
+            free_ext = DYN[dyn](CLASS_AL[cal]("free") if cal else "free")
+            for datum, missing in (({ext: 1}, dep_ext), ({dep_ext: 2}, ext), ({ext: 1, dep_ext: 2}, None), ({}, None), ({free_ext: 3}, None), ({free_ext: 3, dep_ext: 2}, ext)):
+                try:
+                    deserialize(G, datum, **kw)
+                    if missing is not None:
+                        viol("dependent_required_group_enforced", f"{datum} accepted although the group requires {missing!r}")
+                except ValidationError as e:
+                    if missing is None:
+                        viol("dependent_required_group_enforced", f"{datum} rejected: {locs(e)}")
+                    elif [l for l, _ in locs(e)] != [(missing,)]:
+                        viol("dependent_required_group_loc", f"{datum}: {locs(e)}")
+            for sname, fn in (("deserialization_schema", deserialization_schema), ("serialization_schema", serialization_schema)):
+                dr = fn(G, **kw).get("dependentRequired")
+                if dr is None or {k_: sorted(v) for k_, v in dr.items()} != {ext: [dep_ext], dep_ext: [ext]}:
+                    viol(sname + ".dependentRequired(G)", f"{dr} != {{{ext!r}: [{dep_ext!r}], {dep_ext!r}: [{ext!r}]}}")
             # error locations
             try:
                 deserialize(C, {ext: "bad"}, **kw)
